@@ -251,6 +251,13 @@ func c03Healthy(sb *strings.Builder, r *xrand.Rand, k int, u *int) {
 		fmt.Fprintf(sb, "ENUM @en%d // e%d\n[\"v%d\", %d, true]\n", base+i, i, i, i)
 	}
 	for i := 0; i < k; i++ {
+		// regex types referenced from several schemas: every use must see the same example
+		fmt.Fprintf(sb, "TYPE @rx%d regex\n/[a-z]+@[a-z]{%d}/\n", base+i, i+1)
+	}
+	for i := 0; i < k; i++ {
+		fmt.Fprintf(sb, "TYPE @ru%d\n{\n  \"m\": @rx%d,\n  \"n\": [@rx%d]\n}\n", base+i, base+i, base+(i+1)%k)
+	}
+	for i := 0; i < k; i++ {
 		// forward and backward references between types, enums used inside referenced types
 		fmt.Fprintf(sb, "TYPE @ty%d // t%d\n{\n  \"e\": \"v%d\", // {enum: @en%d}\n  \"next\": @ty%d // {optional: true}\n}\n", base+i, i, i, base+i, base+(i+1)%k)
 	}
